@@ -15,7 +15,7 @@ CHECKS = {
         "level_text": "Exploration: hundreds of thousands of real SequentialSolver executions per run (bounded-exhaustive on a tiny knapsack grid x the full configuration product, random beyond) each compared with the exhaustive/DP optimum of the same instance; both an overflow-checked and a plain release build of ddo are exercised. Right level because the property quantifies over all models and configurations: only sampling + small-scope exhaustiveness is available to a run-time oracle.",
         "level_note": "Trusted: the harness oracles (backward DP per family) and the well-formedness of the generated models. Not covered: models outside the three families, instances larger than ~12 variables, user-defined fringes/rankings other than MaxUB.",
         "budget": {"quick": 25, "thorough": 420},
-        "rule": "real SequentialSolver runs (NoCutoff) on (a) the bounded-exhaustive knapsack grid n<=3, w,p in {1,2}, cap<=4 x {LEL,frontier,pooled} x cache on/off x {simple,no-dup fringe} x widths 1..3 x rub {none,exact} x dominance {none,capacity} (a 1/7 slice in the quick tier) and (b) random instances of families T (table DP with powerset relaxation and deferred bonus; depth-free, permuted order, irrelevance, absorbing, re-convergent variants), K (knapsack) and P (set packing with dynamic variable order and long arcs) x random configurations (width heuristics FixedWidth 1..4, NbUnassignedWidth, Times, DivBy; rub none/exact/slack; dominance none/exact/weak; three state rankings); verdict by the exhaustive/DP optimum of the same instance. Non-trivial = the branch-and-bound popped >= 2 sub-problems and squashed (merged or truncated) at least one layer; distinct by (instance hash, configuration, variant).",
+        "rule": "real SequentialSolver runs (NoCutoff) on (a) the bounded-exhaustive knapsack grid n<=3, w,p in {1,2}, cap<=4 x {LEL,frontier,pooled} x cache on/off x {simple,no-dup fringe} x widths 1..3 x rub {none,exact} x dominance {none,capacity} (a 1/7 slice in the quick tier) and (b) random instances of families T (table DP with powerset relaxation and deferred bonus; depth-free, permuted order, irrelevance, absorbing, re-convergent variants), K (knapsack), P (set packing with dynamic variable order and long arcs) and Q (common-subsequence style position vectors, impacted only by the variable matching the first position) x random configurations (width heuristics FixedWidth 1..4, NbUnassignedWidth, Times, DivBy; rub none/exact/slack; dominance none/exact/weak; three state rankings); verdict by the exhaustive/DP optimum of the same instance. Non-trivial = the branch-and-bound popped >= 2 sub-problems and squashed (merged or truncated) at least one layer; distinct by (instance hash, configuration, variant).",
         "assumptions": COMMON_ASSUMPTIONS + ["non-termination is decided by a witness: the same sub-problem re-enqueued itself 200 times while being processed (then the cutoff is fired to end the run); a pop budget exhausted without witness is inconclusive"],
     },
 
@@ -23,7 +23,7 @@ CHECKS = {
         "cmd": "c06", "flavours": ["checked", "release"], "level": "exploration", "engine_name": "vh-seq", "design_ref": "DESIGN.md §4 C06",
         "budget": {"quick": 20, "thorough": 360},
         "technique": "runtime monitoring: direct driver of the real diagram implementations through a recording wrapper (MonDD); value-to-go oracle h* + model-side solution replay",
-        "rule": "direct diagram driver: for random instances of families T/K/P (incl. long-arc variants) the harness enumerates reachable sub-problem roots (compile relaxed, drain the cut-set, recurse; <= 8 roots) and compiles every root with comp types {relaxed,restricted,exact} x widths 1..4 x incumbents {none, opt-d, opt, opt+d, global opt-1} on a fresh object and on a reused object whose history holds earlier compilations of other roots/types and compilations interrupted by a cutoff; x {LEL, frontier, pooled}; empty cache and dominance. Checked on every relaxed compilation: best_value >= sub-problem optimum when it beats the incumbent; when is_exact(): best exact value == optimum (if it beats the incumbent), never above it, best exact solution replays to exactly that value and extends the root path; Completion agrees with the accessors. Non-trivial = relaxed compilation with >= 1 merge; distinct by (instance, diagram type, root, width, incumbent).",
+        "rule": "direct diagram driver: for random instances of families T/K/P/Q (incl. long-arc variants) the harness enumerates reachable sub-problem roots (compile relaxed, drain the cut-set, recurse; <= 8 roots) and compiles every root with comp types {relaxed,restricted,exact} x widths 1..4 x incumbents {none, opt-d, opt, opt+d, global opt-1} on a fresh object and on a reused object whose history holds earlier compilations of other roots/types and compilations interrupted by a cutoff; x {LEL, frontier, pooled}; empty cache and dominance. Checked on every relaxed compilation: best_value >= sub-problem optimum when it beats the incumbent; when is_exact(): best exact value == optimum (if it beats the incumbent), never above it, best exact solution replays to exactly that value and extends the root path; Completion agrees with the accessors. Non-trivial = relaxed compilation with >= 1 merge; distinct by (instance, diagram type, root, width, incumbent).",
         "level_text": "Exploration: ~10^5..10^7 real compilations per run checked against the exact value-to-go of the instance; covers fresh and reused diagram objects including histories with interrupted compilations. The property quantifies over all sub-problems/widths/incumbents/histories, so a run-time oracle can only sample them; tiny instances make the incumbent and width grids dense.",
         "level_note": "Trusted: h* tables of the harness families, the replay functions. The incumbent-relative clauses are only demanded when the sub-problem optimum beats the incumbent (otherwise the rough bound may legitimately prune everything).",
         "assumptions": COMMON_ASSUMPTIONS + ["'in isolation' = EmptyCache and EmptyDominanceChecker"],
@@ -117,7 +117,7 @@ CHECKS = {
         "budget": {"quick": 30, "thorough": 600},
         "addons": ["tsan_par", "miri_par"],
         "technique": "runtime monitoring under a controlled scheduler: the real ParallelSolver is driven through replayable schedules of its critical sections (bounded-deviation DFS, PCT, random) and judged by the exhaustive optimum; plus delay-injected free-running stress; TSan and Miri on the same workload (thorough)",
-        "rule": "tiny instances whose sequential B&B explores 3..40 sub-problems (families T/K/P, all diagram types, cache on/off, both fringes, widths 1..2, 1..4 workers). Per (instance, configuration): stateless DFS over all schedules deviating at most 1 (quick) / 2 (thorough) times from a default policy (sticky or rotating), capped at 60/400 schedules, + 6/20 random + 3/10 PCT schedules; yield points = every acquisition of the critical mutex, condvar wait/notify, cutoff polls (per layer) and optionally cache reads/writes. A quarter of the shards run free threads (2..16) with injected delays on small instances. Verdict: is_exact and value == exhaustive optimum, no panic. Non-trivial = schedule in which >= 2 different workers processed >= 1 node each; distinct by (instance, configuration, hash of the (worker, site) grant sequence).",
+        "rule": "tiny instances whose sequential B&B explores 3..40 sub-problems (families T/K/P/Q, all diagram types, cache on/off, both fringes, widths 1..2, 1..4 workers). Per (instance, configuration): stateless DFS over all schedules deviating at most 1 (quick) / 2 (thorough) times from a default policy (sticky or rotating), capped at 60/400 schedules, + 6/20 random + 3/10 PCT schedules; yield points = every acquisition of the critical mutex, condvar wait/notify, cutoff polls (per layer) and optionally cache reads/writes. A quarter of the shards run free threads (2..16) with injected delays on small instances. Verdict: is_exact and value == exhaustive optimum, no panic. Non-trivial = schedule in which >= 2 different workers processed >= 1 node each; distinct by (instance, configuration, hash of the (worker, site) grant sequence).",
         "level_text": "Exploration of interleavings of the real threads: thousands of distinct schedules per run, exhaustive within the deviation bound on each tiny instance, each replayable from its grant list.",
         "level_note": "Interleavings inside one compilation are at layer granularity (cutoff poll, cache operations); finer interleavings of DashMap operations only through stress/TSan/Miri. Needs the hooks (feature xgillard_ddo_verif).",
         "assumptions": COMMON_ASSUMPTIONS + ["between two scheduling decisions exactly one worker makes progress; woken waiters only re-acquire the mutex and return Starvation before their next yield"],
@@ -163,7 +163,7 @@ CHECKS = {
         "cmd": "c15", "flavours": ["checked", "release"], "level": "exploration", "engine_name": "vh-sched", "design_ref": "DESIGN.md §4 C15",
         "budget": {"quick": 20, "thorough": 300},
         "technique": "runtime monitoring: differential runs Pooled vs plain Mdd vs oracle on long-arc models; non-termination witness monitor on the fringe; parallel part under the controlled scheduler and delay injection",
-        "rule": "long-arc models only: depth-free table models with random irrelevance patterns (family T, each base state ignores a random third of the variables) and set-packing with dynamic variable order (family P); widths 1..3 and width heuristics, cache on/off, both fringes; sequential (half of the shards), parallel under random/PCT schedules, parallel delay-injected with 2..8 threads. Verdict: the solver with Pooled terminates (witness: a sub-problem re-enqueueing itself 200 times), is exact, reports the same value as the solver with the plain diagram == oracle optimum, and its (default-completed) solution replays. Non-trivial = pooled run in which is_impacted_by answered false at least once (a node really skipped a layer); distinct by (instance, configuration).",
+        "rule": "long-arc models only: depth-free table models with random irrelevance patterns (family T, each base state ignores a random third of the variables) set-packing with dynamic variable order (family P) and common-subsequence style models (family Q: impacted iff var == first position; in the plain diagrams the same states take real decisions on every layer); widths 1..3 and width heuristics, cache on/off, both fringes; sequential (half of the shards), parallel under random/PCT schedules, parallel delay-injected with 2..8 threads. Verdict: the solver with Pooled terminates (witness: a sub-problem re-enqueueing itself 200 times), is exact, reports the same value as the solver with the plain diagram == oracle optimum, and its (default-completed) solution replays. Non-trivial = pooled run in which is_impacted_by answered false at least once (a node really skipped a layer); distinct by (instance, configuration).",
         "level_text": "Exploration on the model families that exercise long arcs; termination decided by a witness, never by a clock.",
         "level_note": "Trusted: oracle, replay with neutral completion.",
         "assumptions": COMMON_ASSUMPTIONS,
@@ -182,7 +182,7 @@ CHECKS = {
         "cmd": "c20", "flavours": ["checked"], "level": "exploration", "engine_name": "vh-seq", "design_ref": "DESIGN.md §4 C20",
         "budget": {"quick": 20, "thorough": 300},
         "technique": "runtime monitoring: as_graphviz of every compiled diagram of the direct driver is parsed by a strict DOT reader and compared with a shadow diagram reconstructed from the callbacks (transition / transition_cost / merge / relax / fast_upper_bound) of the same compilation",
-        "rule": "direct driver of C06 (families T/K/P incl. long arcs and infeasible sub-problems, comp types exact/restricted/relaxed, widths 1..4, incumbents that prune everything, LEL/frontier/pooled, fresh and reused objects); after every completed compilation 8 of the 64 VizConfig flag combinations are rendered (always: everything shown; default-like; show_deleted+group_merged; 5 pseudo-random ones - all 64 are covered over a run). Each rendering must: not panic; be accepted by the strict reader of the DOT subset (digraph, node/edge statements, quoted strings with escapes, attribute lists without duplicates, subgraph clusters); declare each id once; labels list exactly the items the flags request; multiset of node state labels == shadow nodes (minus the nodes the shadow knows to be deleted when show_deleted = false: candidates of a squashed layer that received no fast_upper_bound call); multiset of (from state, to state, '(x<var> = <val>)\\ncost = <c>') == shadow arcs into drawn nodes; every edge end is declared or hidden by the configuration; terminal declared iff the shadow's last layer is non-empty with one edge per node of it; clusters only when requested and only listing declared ids. The reader self-tests on malformed inputs. Non-trivial = diagram with >= 1 merged or deleted node; distinct by (instance, diagram, root, width, incumbent, type, flag set).",
+        "rule": "direct driver of C06 (families T/K/P/Q incl. long arcs and infeasible sub-problems, comp types exact/restricted/relaxed, widths 1..4, incumbents that prune everything, LEL/frontier/pooled, fresh and reused objects); after every completed compilation 8 of the 64 VizConfig flag combinations are rendered (always: everything shown; default-like; show_deleted+group_merged; 5 pseudo-random ones - all 64 are covered over a run). Each rendering must: not panic; be accepted by the strict reader of the DOT subset (digraph, node/edge statements, quoted strings with escapes, attribute lists without duplicates, subgraph clusters); declare each id once; labels list exactly the items the flags request; multiset of node state labels == shadow nodes (minus the nodes the shadow knows to be deleted when show_deleted = false: candidates of a squashed layer that received no fast_upper_bound call); multiset of (from state, to state, '(x<var> = <val>)\\ncost = <c>') == shadow arcs into drawn nodes; every edge end is declared or hidden by the configuration; terminal declared iff the shadow's last layer is non-empty with one edge per node of it; clusters only when requested and only listing declared ids. The reader self-tests on malformed inputs. Non-trivial = diagram with >= 1 merged or deleted node; distinct by (instance, diagram, root, width, incumbent, type, flag set).",
         "level_text": "Exploration: ~10^6 renderings per run each compared structurally (nodes, arcs with decision and cost, terminal) with an independent reconstruction of the same diagram.",
         "level_note": "Interrupted and never-compiled diagrams are outside 'any compiled diagram'. State types whose Debug output is plain (no double quote). Node values/bounds in labels are not compared (the property does not mention them).",
         "assumptions": COMMON_ASSUMPTIONS + ["graphviz itself is not installed: well-formedness = acceptance by the harness's strict reader of the DOT subset"],
